@@ -2,7 +2,6 @@ package vsched
 
 import (
 	"fmt"
-	"runtime"
 	"strings"
 	"time"
 )
@@ -562,7 +561,6 @@ func Explore(body func(), opts Options, onExec func(*Execution) bool) Stats {
 	st.CacheStates = int64(len(c.cache))
 	st.Skipped = c.skipped
 	st.SleepSkipped = c.sleepSkipped
-	runtime.GC()
 	return st
 }
 
